@@ -66,4 +66,321 @@ theorem Fields.ext_sorted : ∀ {a b : Fields} {lb : Nat}, a.sortedFrom lb → b
       rw [Fields.get?_of_sortedFrom (by omega) h2, Fields.get?_of_sortedFrom (by omega) h2']
     · simpa only [hk, if_false] using this
 
+theorem get?_clearOneofFor_self (d : MsgD) (f : Field) (fs : Fields) :
+    (match f.oneof with
+      | some o => Fields.clearOneof d o f.num fs
+      | none => fs).get? f.num = fs.get? f.num := by
+  cases f.oneof with
+  | none => rfl
+  | some o =>
+    simp only [Fields.get?_clearOneof]
+    have : d.otherMember o f.num f.num = false := by
+      unfold MsgD.otherMember; split <;> simp
+    simp [this]
+
+theorem listAt_congr {fs1 fs2 : Fields} {k : Nat} (h : fs1.get? k = fs2.get? k) : fs1.listAt k = fs2.listAt k := by
+  unfold Fields.listAt; rw [h]
+
+/-- `decField` looks at the destination only through the field it decodes: two destinations that
+agree on that field get the same verdict and the same new value of the field -/
+theorem decField_congr {S : Schema} {mi : Nat} {m1 m2 : Msg} {f : Field} {wt : Nat} {val : List Byte} {d : Int}
+    {dis : Bool} (fuel : Nat) (hget : m1.fields.get? f.num = m2.fields.get? f.num) :
+    (∀ e, decField fuel S mi m1 f wt val d dis = .err e → decField fuel S mi m2 f wt val d dis = .err e) ∧
+    (decField fuel S mi m1 f wt val d dis = .unknown → decField fuel S mi m2 f wt val d dis = .unknown) ∧
+    (∀ m1', decField fuel S mi m1 f wt val d dis = .ok m1' →
+      ∃ m2', decField fuel S mi m2 f wt val d dis = .ok m2' ∧
+        m2'.fields.get? f.num = m1'.fields.get? f.num ∧ m1'.unknown = m1.unknown ∧ m2'.unknown = m2.unknown) := by
+  cases fuel with
+  | zero => simp [decField]
+  | succ fu =>
+  cases m1 with
+  | mk fs1 u1 =>
+  cases m2 with
+  | mk fs2 u2 =>
+  simp only [Msg.fields] at hget
+  have hself : ∀ o, (S.msg mi).otherMember o f.num f.num = false := by
+    intro o; unfold MsgD.otherMember; split <;> simp
+  refine ⟨?_, ?_, ?_⟩
+  · intro e h
+    unfold decField at h ⊢
+    cases ho : f.oneof <;> simp only [ho, Msg.fields, Msg.unknown] at h ⊢
+    all_goals (try simp only [Fields.get?_clearOneof, hself, Bool.false_eq_true, if_false] at h ⊢)
+    all_goals (try simp only [hget] at h)
+    all_goals (repeat' (first | split at h | (dsimp only at h; split at h)))
+    all_goals first
+      | (cases h; done)
+      | (simp only [Step.err.injEq] at h; subst h; simp [*]; done)
+  · intro h
+    unfold decField at h ⊢
+    cases ho : f.oneof <;> simp only [ho, Msg.fields, Msg.unknown] at h ⊢
+    all_goals (try simp only [Fields.get?_clearOneof, hself, Bool.false_eq_true, if_false] at h ⊢)
+    all_goals (try simp only [hget] at h)
+    all_goals (repeat' (first | split at h | (dsimp only at h; split at h)))
+    all_goals first
+      | (cases h; done)
+      | (simp [*]; done)
+  · intro m1' h
+    unfold decField at h ⊢
+    cases ho : f.oneof <;> simp only [ho, Msg.fields, Msg.unknown] at h ⊢
+    all_goals (try simp only [Fields.get?_clearOneof, hself, Bool.false_eq_true, if_false] at h ⊢)
+    all_goals (try simp only [hget] at h)
+    all_goals (repeat' (first | split at h | (dsimp only at h; split at h)))
+    all_goals first
+      | (cases h; done)
+      | (simp only [Step.ok.injEq] at h; subst h
+         simp [*, Fields.get?_set, get?_setSingular, get?_appendList, Msg.fields, Msg.unknown, Fields.listAt,
+           Vals.isNil]; done)
+
+/-- siblings cleared by decoding a record of `f`: other members of its oneof (singular fields only) -/
+def clearsSib (d : MsgD) (f : Field) (j : Nat) : Bool :=
+  (f.card != .repeated && f.card != .map) && oneofOther d f j
+
+/-- frame: decoding a record of `f` leaves every other field alone, except that a singular member of
+a oneof clears its siblings -/
+theorem decField_frame {S : Schema} {mi : Nat} {m m' : Msg} {f : Field} {wt : Nat} {val : List Byte} {d : Int}
+    {dis : Bool} (fuel : Nat) (h : decField fuel S mi m f wt val d dis = .ok m') (j : Nat) (hj : j ≠ f.num) :
+    m'.fields.get? j = if clearsSib (S.msg mi) f j then none else m.fields.get? j := by
+  have hj' : ¬ f.num = j := fun e => hj e.symm
+  cases fuel with
+  | zero => simp [decField] at h
+  | succ fu =>
+  cases m with
+  | mk fs u =>
+  unfold decField at h
+  cases ho : f.oneof <;> simp only [ho, Msg.fields, Msg.unknown] at h
+  all_goals (repeat' (first | split at h | (dsimp only at h; split at h)))
+  all_goals first
+    | (cases h; done)
+    | (simp only [Step.ok.injEq] at h; subst h
+       try (have hc1 : (f.card != Card.repeated) = true := by simpa using ‹f.card = Card.repeated → False›)
+       try (have hc2 : (f.card != Card.map) = true := by simpa using ‹f.card = Card.map → False›)
+       simp [*, clearsSib, oneofOther, Fields.get?_set, get?_setSingular, get?_appendList, Fields.get?_clearOneof,
+         Msg.fields]; done)
+
+theorem decField_sorted {S : Schema} {mi : Nat} {m m' : Msg} {f : Field} {wt : Nat} {val : List Byte} {d : Int}
+    {dis : Bool} (fuel : Nat) (h : decField fuel S mi m f wt val d dis = .ok m') (hs : m.fields.sortedFrom 0) :
+    m'.fields.sortedFrom 0 := by
+  cases fuel with
+  | zero => simp [decField] at h
+  | succ fu =>
+  cases m with
+  | mk fs u =>
+  simp only [Msg.fields] at hs
+  unfold decField at h
+  cases ho : f.oneof <;> simp only [ho, Msg.fields, Msg.unknown] at h
+  all_goals (repeat' (first | split at h | (dsimp only at h; split at h)))
+  all_goals first
+    | (cases h; done)
+    | (simp only [Step.ok.injEq] at h; subst h
+       simp only [Msg.fields]
+       first
+         | exact sortedFrom_appendList _ (Nat.zero_le _) hs
+         | exact Fields.sortedFrom_set _ (Nat.zero_le _) hs
+         | exact Fields.sortedFrom_set _ (Nat.zero_le _) (Fields.sortedFrom_clearOneof _ _ _ hs)
+         | exact sortedFrom_setSingular _ f _ (Nat.zero_le _) hs)
+
+/-- a record of a lazy field with another wire type than length-delimited is not interpreted -/
+theorem decField_lazy_wrongwt {S : Schema} {mi : Nat} {m : Msg} {f : Field} {lazy : Nat → Bool} {wt : Nat}
+    {val : List Byte} {d : Int} {dis : Bool} (fuel : Nat) (hl : isLazyField lazy f = true) (hw : wt ≠ 2) :
+    decField (fuel + 1) S mi m f wt val d dis = .unknown := by
+  simp only [isLazyField, Bool.and_eq_true, beq_iff_eq, bne_iff_ne, ne_eq, Option.isNone_iff_eq_none] at hl
+  obtain ⟨⟨⟨⟨_, hk⟩, hc1⟩, hc2⟩, _⟩ := hl
+  unfold decField
+  cases hc : f.card <;> simp only [hc] at hc1 hc2 ⊢ <;> first
+    | contradiction
+    | simp [hk, Kind.isMessage, decSubBytes, hw]
+
+/-- a length-delimited record of a lazy field, eagerly: decode the payload into the submessage held
+so far (`c`) -/
+theorem decField_lazy_eval {S : Schema} {mi : Nat} {m : Msg} {f : Field} {lazy : Nat → Bool}
+    {val : List Byte} {d : Int} {dis : Bool} {c : Msg} (fuel : Nat) (hl : isLazyField lazy f = true)
+    (hcur : (m.fields.get? f.num = none ∧ c = Msg.empty) ∨ m.fields.get? f.num = some (.one (.msg c))) :
+    decField (fuel + 1) S mi m f 2 val d dis =
+      match decBytes val with
+      | .error _ => .err .decode
+      | .ok (p, _) =>
+        if d - 1 < 0 then .err .depth else
+        match decMsg fuel S f.sub c p (d - 1) dis with
+        | .error e => .err e
+        | .ok sub => .ok (.mk (m.fields.set f.num (.one (.msg sub))) m.unknown) := by
+  simp only [isLazyField, Bool.and_eq_true, beq_iff_eq, bne_iff_ne, ne_eq, Option.isNone_iff_eq_none] at hl
+  obtain ⟨⟨⟨⟨_, hk⟩, hc1⟩, hc2⟩, ho⟩ := hl
+  unfold decField
+  cases hc : f.card <;> simp only [hc] at hc1 hc2 ⊢ <;> first
+    | contradiction
+    | (simp only [hk, Kind.isMessage, decSubBytes, ho, reduceCtorEq, if_false, if_true, ne_eq, not_true_eq_false]
+       cases hb : decBytes val with
+       | error e => simp
+       | ok r =>
+         obtain ⟨p, n⟩ := r
+         rcases hcur with ⟨h0, rfl⟩ | h1
+         · simp only [h0]
+           by_cases hd : d - 1 < 0
+           · simp [hd]
+           · simp only [hd, if_false]
+             cases decMsg fuel S f.sub Msg.empty p (d - 1) dis <;> rfl
+         · simp only [h1]
+           by_cases hd : d - 1 < 0
+           · simp [hd]
+           · simp only [hd, if_false]
+             cases decMsg fuel S f.sub c p (d - 1) dis <;> rfl)
+
+theorem decodeOcc_append (S : Schema) (sub : Nat) (d : Int) (dis : Bool) (p : List Byte) :
+    ∀ (a : List (List Byte)) (acc : Msg),
+      decodeOcc S sub d dis (a ++ [p]) acc =
+        match decodeOcc S sub d dis a acc with
+        | .error e => .error e
+        | .ok x => decMsg (Pb.fuelFor p) S sub x p d dis
+  | [], acc => by
+    simp only [List.nil_append, decodeOcc]
+    cases decMsg (Pb.fuelFor p) S sub acc p d dis <;> rfl
+  | q :: qs, acc => by
+    simp only [List.cons_append, decodeOcc]
+    cases decMsg (Pb.fuelFor q) S sub acc q d dis with
+    | error e => rfl
+    | ok x => exact decodeOcc_append S sub d dis p qs x
+
+theorem occurrences_append (pend : List (Nat × List Byte)) (k : Nat) (p : List Byte) (k' : Nat) :
+    occurrences (pend ++ [(k, p)]) k' = if k = k' then occurrences pend k' ++ [p] else occurrences pend k' := by
+  unfold occurrences
+  by_cases h : k = k'
+  · subst h; simp [List.filter_append]
+  · simp [List.filter_append, h]
+
+section
+variable (S : Schema) (mi : Nat) (lazy : Nat → Bool) (depth : Int) (dis : Bool)
+
+/-- field number `k` is a lazy field of the message type -/
+def lazyAt (k : Nat) : Bool :=
+  match (S.msg mi).find k with
+  | some f => isLazyField lazy f
+  | none => false
+
+/-- the simulation relation: lazily decoded state `l` vs eagerly decoded message `m` after the same
+prefix of the input -/
+structure Sim (l : LMsg) (m : Msg) : Prop where
+  unk : m.unknown = l.base.unknown
+  sm : m.fields.sortedFrom 0
+  sb : l.base.fields.sortedFrom 0
+  nonlazy : ∀ k, lazyAt S mi lazy k = false → m.fields.get? k = l.base.fields.get? k
+  lazyf : ∀ k f, (S.msg mi).find k = some f → isLazyField lazy f = true →
+    l.base.fields.get? k = none ∧
+    ((occurrences l.pend k = [] ∧ m.fields.get? k = none) ∨
+     (occurrences l.pend k ≠ [] ∧ ∃ sub,
+        decodeOcc S f.sub (depth - 1) dis (occurrences l.pend k) Msg.empty = .ok sub ∧
+        m.fields.get? k = some (.one (.msg sub))))
+  pendLazy : ∀ kp ∈ l.pend, lazyAt S mi lazy kp.1 = true
+
+theorem Sim_empty : Sim S mi lazy depth dis LMsg.empty Msg.empty := by
+  refine ⟨rfl, trivial, trivial, fun _ _ => rfl, ?_, ?_⟩
+  · intro k f _ _
+    exact ⟨rfl, Or.inl ⟨rfl, rfl⟩⟩
+  · intro kp h; simp [LMsg.empty] at h
+
+end
+
+theorem Sim_unknown {S : Schema} {mi : Nat} {lazy : Nat → Bool} {depth : Int} {dis : Bool} {l : LMsg} {m : Msg}
+    (h : Sim S mi lazy depth dis l m) (x : List Byte) (disc : Bool) :
+    Sim S mi lazy depth dis ⟨if disc then l.base else Msg.mk l.base.fields (l.base.unknown ++ x), l.pend⟩
+      (if disc then m else Msg.mk m.fields (m.unknown ++ x)) := by
+  cases disc
+  · simp only [Bool.false_eq_true, if_false]
+    exact ⟨(by show m.unknown ++ x = l.base.unknown ++ x; rw [h.unk]), h.sm, h.sb, h.nonlazy, h.lazyf, h.pendLazy⟩
+  · simpa using h
+
+/-- one non-deferred record: the lazy loop and the eager loop do the same thing to their messages -/
+theorem decOne_sim {S : Schema} {mi : Nat} {lazy : Nat → Bool} {depth : Int} {dis : Bool} {l : LMsg} {m : Msg}
+    (h : Sim S mi lazy depth dis l m) (fu : Nat) (b : List Byte) (num wt tl : Nat)
+    (hgen : ∀ f, (S.msg mi).find num = some f → isLazyField lazy f = true → wt ≠ 2) :
+    (∀ e, decOne (fu + 1) S mi l.base b num wt tl depth dis = .error e →
+        decOne (fu + 1) S mi m b num wt tl depth dis = .error e) ∧
+    (∀ b' rest, decOne (fu + 1) S mi l.base b num wt tl depth dis = .ok (b', rest) →
+        ∃ m', decOne (fu + 1) S mi m b num wt tl depth dis = .ok (m', rest) ∧
+          Sim S mi lazy depth dis ⟨b', l.pend⟩ m') := by
+  unfold decOne
+  cases hfind : (S.msg mi).find num with
+  | none =>
+    simp only
+    cases hc : consumeFieldValue num wt (List.drop tl b) with
+    | error e0 => simp
+    | ok n =>
+      simp only
+      refine ⟨(by intro e he; cases he), ?_⟩
+      intro b' rest hb
+      simp only [Except.ok.injEq, Prod.mk.injEq] at hb
+      obtain ⟨rfl, rfl⟩ := hb
+      exact ⟨_, rfl, Sim_unknown h _ dis⟩
+  | some f =>
+    simp only
+    have hfn := MsgD.find_num_eq hfind
+    subst hfn
+    by_cases hl : isLazyField lazy f = true
+    · have hw := hgen f hfind hl
+      rw [decField_lazy_wrongwt fu hl hw, decField_lazy_wrongwt fu hl hw]
+      simp only
+      cases hc : consumeFieldValue f.num wt (List.drop tl b) with
+      | error e0 => simp
+      | ok n =>
+        simp only
+        refine ⟨(by intro e he; cases he), ?_⟩
+        intro b' rest hb
+        simp only [Except.ok.injEq, Prod.mk.injEq] at hb
+        obtain ⟨rfl, rfl⟩ := hb
+        exact ⟨_, rfl, Sim_unknown h _ dis⟩
+    · have hl' : isLazyField lazy f = false := by simpa using hl
+      have hla : lazyAt S mi lazy f.num = false := by simp [lazyAt, hfind, hl']
+      have hget := (h.nonlazy f.num hla).symm
+      obtain ⟨cErr, cUnk, cOk⟩ := decField_congr (S := S) (mi := mi) (wt := wt) (val := List.drop tl b)
+        (d := depth) (dis := dis) (fu + 1) hget
+      cases hstep : decField (fu + 1) S mi l.base f wt (List.drop tl b) depth dis with
+      | err e0 =>
+        rw [cErr e0 hstep]
+        simp
+      | unknown =>
+        rw [cUnk hstep]
+        simp only
+        cases hc : consumeFieldValue f.num wt (List.drop tl b) with
+        | error e0 => simp
+        | ok n =>
+          simp only
+          refine ⟨(by intro e he; cases he), ?_⟩
+          intro b' rest hb
+          simp only [Except.ok.injEq, Prod.mk.injEq] at hb
+          obtain ⟨rfl, rfl⟩ := hb
+          exact ⟨_, rfl, Sim_unknown h _ dis⟩
+      | ok b1 =>
+        obtain ⟨m1, hm1, hg1, hu1, hu2⟩ := cOk b1 hstep
+        rw [hm1]
+        simp only
+        cases hc : consumeFieldValue f.num wt (List.drop tl b) with
+        | error e0 => simp
+        | ok n =>
+          simp only
+          refine ⟨(by intro e he; cases he), ?_⟩
+          intro b' rest hb
+          simp only [Except.ok.injEq, Prod.mk.injEq] at hb
+          obtain ⟨rfl, rfl⟩ := hb
+          refine ⟨m1, rfl, ?_⟩
+          have hfr1 := decField_frame (fu + 1) hstep
+          have hfr2 := decField_frame (fu + 1) hm1
+          refine ⟨by rw [hu2, hu1, h.unk], decField_sorted _ hm1 h.sm, decField_sorted _ hstep h.sb, ?_, ?_, h.pendLazy⟩
+          · intro k hk
+            by_cases hkf : k = f.num
+            · subst hkf; exact hg1
+            · rw [hfr1 k hkf, hfr2 k hkf, h.nonlazy k hk]
+          · intro k g hkg hlg
+            have hkf : k ≠ f.num := by
+              intro e; subst e; rw [hfind] at hkg; cases hkg; rw [hlg] at hl'; cases hl'
+            have hgo : g.oneof = none := by
+              simp only [isLazyField, Bool.and_eq_true, Option.isNone_iff_eq_none] at hlg; exact hlg.2
+            have hcs : clearsSib (S.msg mi) f k = false := by
+              simp only [clearsSib, oneofOther, Bool.and_eq_false_iff]
+              right
+              cases f.oneof with
+              | none => rfl
+              | some o => simp [MsgD.otherMember, hkg, hgo]
+            have := h.lazyf k g hkg hlg
+            rw [hfr1 k hkf, hfr2 k hkf, hcs]
+            simpa using this
+
 end Pb
